@@ -42,7 +42,7 @@ func (g Graph) String() string {
 	return s
 }
 
-var faultKinds = map[string]bool{"private-fn": true, "private-global": true, "missing-item": true, "wrong-kind-type": true, "wrong-kind-value": true, "missing-module": true,
+var faultKinds = map[string]bool{"private-event-fn": true, "private-fn": true, "private-global": true, "missing-item": true, "wrong-kind-type": true, "wrong-kind-value": true, "missing-module": true,
 	"reimport-fn": true, "reimport-global": true, "reimport-type": true}
 
 func (g Graph) faulty() bool {
@@ -127,6 +127,9 @@ func buildModule(n string, g Graph) *hs.Module {
 				say(sl(n+" typed "+to), hs.Member{X: id(v, t), Name: "v", T: hs.TInt}))
 		case "private-fn":
 			m.Imports = append(m.Imports, hs.Import{From: to, Items: []hs.ImportItem{{Name: "helper_" + to}}})
+		case "private-event-fn":
+			// an `event fn` carries a modifier, but not `pub`: it is private
+			m.Imports = append(m.Imports, hs.Import{From: to, Items: []hs.ImportItem{{Name: "ev_" + to}}})
 		case "private-global":
 			m.Imports = append(m.Imports, hs.Import{From: to, Items: []hs.ImportItem{{Name: "y_" + to}}})
 		case "missing-item":
@@ -174,6 +177,10 @@ func buildModule(n string, g Graph) *hs.Module {
 		f.Body.Stmts = append(f.Body.Stmts, say(sl("a singleton"), hs.Member{X: id("sg", st), Name: "n", T: hs.TInt}))
 	}
 	m.Fns = append(m.Fns, helper, helperN, f)
+	if n != "main" {
+		m.Fns = append(m.Fns, hs.FnDef{Name: "ev_" + n, Event: true, Params: []hs.Param{{Name: "elapsed", T: hs.TInt}}, Ret: hs.TNull,
+			Body: &hs.Block{T: hs.TNull, Stmts: []hs.Stmt{say(sl(n + " event"), id("elapsed", hs.TInt))}}})
+	}
 	// "... even when other modules define functions or globals with the same names": every module also
 	// defines PRIVATE items named like the pub items of each module it does not import from. They are
 	// never used; a linker that resolves an import by bare name can pick them up.
@@ -302,7 +309,7 @@ func init() { pk.Reg("graph", checkGraph) }
 func TestReplay(t *testing.T) { pk.ReplayTest(t) }
 
 var okKinds = []string{"ok-fn", "ok-global", "ok-type"}
-var allKinds = []string{"ok-fn", "ok-global", "ok-type", "private-fn", "private-global", "missing-item", "wrong-kind-type", "wrong-kind-value", "missing-module"}
+var allKinds = []string{"ok-fn", "ok-global", "ok-type", "private-fn", "private-event-fn", "private-global", "missing-item", "wrong-kind-type", "wrong-kind-value", "missing-module"}
 
 type shape struct {
 	name  string
